@@ -207,6 +207,18 @@ Definition ref_add : list astep :=
 (** the keys of the parameter dict are the identifiers (part of [wf]); without it [d[index] = ...] could overwrite *)
 Definition keys_agree (c : container) : Prop := indices c = map fst (params c).
 
+(** a sequence of additions with the source-level program; the first exception aborts (it propagates to the caller) *)
+Fixpoint src_add_all (tt : type_table) (p : list astep) (c : container) (l : list (pyid * pyarg)) : res container :=
+  match l with
+  | [] => Ok c
+  | (i, a) :: r =>
+    match src_add tt p c i a with
+    | SAdded c' => src_add_all tt p c' r
+    | SRaised e _ => Err e
+    | SOutside => Err Unmodelled
+    end
+  end.
+
 (* ------------------------------------------------------------------------------------------ column labels *)
 
 (** [to_dataframe]: a parameter is ONE column called like it iff its shape is [plain_shape] and [plain_unless] does not
@@ -318,15 +330,15 @@ Section TorchSrc.
 End TorchSrc.
 
 (** [subset]: membership of the requested identifiers tested in [sub_member], entries read from [sub_read]
-    ([self[idx]] = [__getitem__]), each one added to a fresh object by [add_individual_parameters] *)
+    ([self[idx]] = [__getitem__]), each one added to a fresh object by [add_individual_parameters] — the source-level program *)
 Record subset_rule := mkSR { sub_member : id_source; sub_read : id_source; sub_via_add : bool }.
 
-Definition src_subset (r : subset_rule) (c : container) (ids : list pyid) : res container :=
+Definition src_subset (tt : type_table) (p : list astep) (r : subset_rule) (c : container) (ids : list pyid) : res container :=
   match ids_of (sub_member r) c, sub_read r, sub_via_add r with
   | Some known, SrcParamKeys, true =>
     if negb (forallb (fun i => match i with IdStr s => mem_str s known | IdNotStr => false end) ids)
     then Err InputError
-    else add_all empty
+    else src_add_all tt p empty
            (map (fun i => (i, match i with
                               | IdStr s => match lookup s (params c) with
                                            | Some e => ArgDict (map (fun pv => (fst pv, value_to_py (snd pv))) e)
